@@ -207,7 +207,14 @@ let cmd line =
            (jmap (p_targs e.e_payload)) (jmap (p_fields e.e_payload))
            (jlist (fun p -> string_of_int (int_of_n p)) (p_parents e.e_payload)))
          (get_arena st k))) kinds_coded));
-  add "},\"diags\":"; add (jlist jfr (sm_diags st)); add "}";
+  add "},\"diags\":"; add (jlist jfr (sm_diags st));
+  let stn = absN s in
+  add ",\"name_to_class\":"; add (jmap (sm_name_to_class stn));
+  add ",\"name_to_def\":"; add (jmap (sm_name_to_def stn));
+  add ",\"declared_classes\":";
+  let rec int_of_nat = function O -> 0 | S k -> 1 + int_of_nat k in
+  add (jlist (fun (n, k) -> Printf.sprintf "[%s,%d]" (jname n) (int_of_nat k)) (declared_classes w));
+  add "}";
   Buffer.contents b
 
 let () =
